@@ -17,6 +17,7 @@ pub proof fn lemma_pdot_neg(a: Seq<F64>, b: Seq<F64>, x: Seq<real>)
     ensures pdot(b, x) == -pdot(a, x),
     decreases a.len(),
 {
+    reveal(rmul_s); reveal(rdiv_s);
     if a.len() > 0 {
         lemma_pdot_neg(a.drop_last(), b.drop_last(), x);
         assert(rv(b.last()) == -rv(a.last()));
@@ -41,6 +42,7 @@ pub proof fn lemma_pdot_zero_tail(a: Seq<F64>, c: Seq<F64>, x: Seq<real>)
     ensures pdot(c, x) == pdot(a, x),
     decreases c.len() - a.len(), c.len(),
 {
+    reveal(rmul_s); reveal(rdiv_s);
     if c.len() == a.len() {
         lemma_pdot_ext(a, c, x);
     } else {
